@@ -1,12 +1,15 @@
 #!/bin/sh
 # usage: seedrun.sh <seed-id> <check> [<check> ...]
-# applies seeded/<id>/patch.diff to /repo, runs the named quick checks (4 at a time), undoes the change, writes seeded/<id>/result.json
+# applies seeded/<id>/patch.diff to a scratch worktree of /repo's HEAD, runs the named quick checks against it (VERIF_REPO; 4 at a time),
+# removes the worktree, writes seeded/<id>/result.json.  /repo itself is not touched.
 id=$1; shift
 mkdir -p /tmp/scratch/seedrun
-cd /repo && git diff --quiet || { echo "/repo is dirty"; exit 2; }
-git -C /repo apply /verif/seeded/$id/patch.diff || exit 2
-printf '%s\n' "$@" | xargs -P 4 -I{} sh -c '/verif/check {} --tier quick > /tmp/scratch/seedrun/'$id'_{}.log 2>&1; echo "{} rc=$?" > /tmp/scratch/seedrun/'$id'_{}.rc'
-git -C /repo checkout -- .
+wt=/tmp/scratch/seedrun/wt_$id
+git -C /repo worktree remove --force $wt 2>/dev/null
+git -C /repo worktree add -q --detach $wt HEAD || exit 2
+git -C $wt apply /verif/seeded/$id/patch.diff || { git -C /repo worktree remove --force $wt; exit 2; }
+printf '%s\n' "$@" | xargs -P 4 -I{} sh -c 'VERIF_OUT=/tmp/scratch/seedrun/out VERIF_REPO='$wt' /verif/check {} --tier quick > /tmp/scratch/seedrun/'$id'_{}.log 2>&1; echo "{} rc=$?" > /tmp/scratch/seedrun/'$id'_{}.rc'
+git -C /repo worktree remove --force $wt
 /venv/bin/python - "$id" "$@" <<'PY'
 import json, re, sys
 sid, checks = sys.argv[1], sys.argv[2:]
